@@ -24,3 +24,5 @@ c10 = B("bounded.c10")
 c11 = B("bounded.c11")
 c12 = B("bounded.c12")
 c13 = B("bounded.c13")
+c09 = B("bounded.c09")
+c02 = B("bounded.c02")
